@@ -154,7 +154,7 @@ class Scope(FortranObj):
             if def_error is not None:
                 errors.append(def_error)
             # Detect contains errors
-            if contains_line >= child.sline and child.get_type(no_link=True) in (
+            if contains_line > child.sline and child.get_type(no_link=True) in (
                 SUBROUTINE_TYPE_ID,
                 FUNCTION_TYPE_ID,
             ):
